@@ -19,6 +19,28 @@
 #include <string_view>
 #include <optional>
 
+#ifdef SBEPP_VERIF
+// verification hook: pipeline phase markers, one JSON line each, appended to
+// the file named by the environment variable SBEPPC_VERIF_TRACE
+#    include <cstdio>
+#    include <cstdlib>
+#    define SBEPP_VERIF_PHASE(name) ::sbepp_verif_phase(name)
+namespace
+{
+void sbepp_verif_phase(const char* name)
+{
+    if(const char* path = std::getenv("SBEPPC_VERIF_TRACE"))
+    {
+        if(std::FILE* f = std::fopen(path, "a"))
+        {
+            std::fprintf(f, "{\"ev\":\"phase\",\"name\":\"%s\"}\n", name);
+            std::fclose(f);
+        }
+    }
+}
+} // namespace
+#endif
+
 namespace
 {
 char* get_option_value(const int argc, char** argv, int option_index)
@@ -150,17 +172,32 @@ int main(int argc, char** argv)
     try
     {
         const auto config = parse_command_line(argc, argv);
+#ifdef SBEPP_VERIF
+        SBEPP_VERIF_PHASE("args");
+#endif
 
         schema_parser parser{config.schema_file, reporter, fs_provider};
         parser.parse_schema();
+#ifdef SBEPP_VERIF
+        SBEPP_VERIF_PHASE("parsed");
+#endif
         const auto& schema = parser.get_message_schema();
 
         context_manager ctx_manager;
         sbe_schema_validator::validate(schema, ctx_manager, reporter);
+#ifdef SBEPP_VERIF
+        SBEPP_VERIF_PHASE("validated");
+#endif
         sbe_schema_cpp_validator::validate(
             schema, config.schema_name, ctx_manager, reporter);
+#ifdef SBEPP_VERIF
+        SBEPP_VERIF_PHASE("cpp-validated");
+#endif
 
         names_generator::generate(schema, ctx_manager);
+#ifdef SBEPP_VERIF
+        SBEPP_VERIF_PHASE("named");
+#endif
 
         schema_compiler::compile(
             config.output_dir,
@@ -168,9 +205,15 @@ int main(int argc, char** argv)
             schema,
             ctx_manager,
             fs_provider);
+#ifdef SBEPP_VERIF
+        SBEPP_VERIF_PHASE("compiled");
+#endif
     }
     catch(const sbe_error& e)
     {
+#ifdef SBEPP_VERIF
+        SBEPP_VERIF_PHASE("error");
+#endif
         reporter.error(e.what());
         return 1;
     }
